@@ -97,6 +97,10 @@ SeqCont(pkg) == {c \in {Cont(k, s, "none", "direct") : k \in Kinds \ {"ometh", "
 Splits(cs) == {<<cs>>} \cup {<<SubSeq(cs, 1, k), SubSeq(cs, k + 1, Len(cs))>> : k \in 1..(Len(cs) - 1)}
 
 InitProg ==
+  \/ /\ Mode = "single0"   \* the slice of "single" without nesting and with the plain list spelling (non-vacuity runs of the deviations)
+     /\ \E ann \in {a \in Anns : a.csp = 1}, pkg \in {"d", "u"}, k \in Kinds, s \in Stmts :
+          /\ Valid(Cont(k, s, "none", "direct"), pkg)
+          /\ prog = [ann |-> ann, pkg |-> pkg, files |-> OneFile(Cont(k, s, "none", "direct"))]
   \/ /\ Mode = "single"
      /\ \E ann \in Anns, pkg \in {"d", "u"}, k \in Kinds, s \in Stmts, n \in Nests :
           /\ Valid(Cont(k, s, n, "direct"), pkg)
